@@ -305,6 +305,11 @@ pub trait Int:
     type D: Digit + Debug + Eq;
     type U: UInt<U = Self::U, I = Self::I, D = Self::D>;
     type I: SInt<U = Self::U, I = Self::I, D = Self::D>;
+    /// same digit family, 1 and 3 digits (used as bnum-typed shift amounts)
+    type Fam1U: UInt;
+    type Fam1I: SInt;
+    type Fam3U: UInt;
+    type Fam3I: SInt;
     const N: usize;
     const DIGIT_BITS: u32;
     const W: u32;
@@ -365,6 +370,10 @@ macro_rules! impl_family {
             type D = $D;
             type U = bnum::$BUint<N>;
             type I = bnum::$BInt<N>;
+            type Fam1U = bnum::$BUint<1>;
+            type Fam1I = bnum::$BInt<1>;
+            type Fam3U = bnum::$BUint<3>;
+            type Fam3I = bnum::$BInt<3>;
             const N: usize = N;
             const DIGIT_BITS: u32 = <$D>::BITS;
             const W: u32 = <$D>::BITS * N as u32;
@@ -415,6 +424,10 @@ macro_rules! impl_family {
             type D = $D;
             type U = bnum::$BUint<N>;
             type I = bnum::$BInt<N>;
+            type Fam1U = bnum::$BUint<1>;
+            type Fam1I = bnum::$BInt<1>;
+            type Fam3U = bnum::$BUint<3>;
+            type Fam3I = bnum::$BInt<3>;
             const N: usize = N;
             const DIGIT_BITS: u32 = <$D>::BITS;
             const W: u32 = <$D>::BITS * N as u32;
